@@ -232,29 +232,46 @@ CanAdd(a, b) == /\ TRank(a) = TRank(b)
 OpAddScaled(a, z, b) == [a EXCEPT !.val = TAdd(a.val, TScale(z, b.val))]
 OpScale(t, z) == [t EXCEPT !.val = TScale(z, t.val)]
 
-\* combine_legs(group, qconj=qc): one new pipe at the default position
-NonCombined(t, group) == FreeAxes(TRank(t), group)
-NewAxis(t, group) == Cardinality({a \in 1..TRank(t) : a < group[1] /\ \A k \in 1..Len(group) : group[k] # a}) + 1
-CanCombine(t, group) == /\ Len(group) >= 1
-                        /\ \A i, j \in 1..Len(group) : i # j => group[i] # group[j]
-                        /\ \A i \in 1..Len(group) : group[i] \in 1..TRank(t)
-OpCombine(t, group, qc, sort, bunch) ==
-    LET nc == NonCombined(t, group)
-        na == NewAxis(t, group)
-        r2 == Len(nc) + 1
-        inLegs == [k \in 1..Len(group) |-> t.legs[group[k]]]
-        pd == PipeData(inLegs, qc, sort, bunch)
-        pipe == pd.leg
-        inv == pd.inv
-        inGroup == [b \in 1..TRank(t) |-> IF \E k \in 1..Len(group) : group[k] = b THEN CHOOSE k \in 1..Len(group) : group[k] = b ELSE 0]
-        inNc == [b \in 1..TRank(t) |-> IF inGroup[b] = 0 THEN CHOOSE p \in 1..Len(nc) : nc[p] = b ELSE 0]
-        \* result axis -> source: axes before na are nc[1..na-1], axis na is the pipe, after: nc[na..]
-        legs == [a \in 1..r2 |-> IF a < na THEN t.legs[nc[a]] ELSE IF a = na THEN pipe ELSE t.legs[nc[a - 1]]]
-        labels == [a \in 1..r2 |-> IF a < na THEN t.labels[nc[a]] ELSE IF a = na THEN CombineLabels(t.labels, group) ELSE t.labels[nc[a - 1]]]
+\* combine_legs(groups, qconj=qcs [, new_axes]): several pipes at once.
+\*   groups : Seq of Seq of axes (1-based), qcs : Seq of +-1 (direction of each pipe)
+\* Default position of pipe i (as documented): number of non-combined axes before its first leg plus the
+\* number of other pipes whose first leg comes earlier.
+AllGrouped(groups) == UNION {{groups[i][k] : k \in 1..Len(groups[i])} : i \in 1..Len(groups)}
+NonCombinedG(t, groups) == LET S == AllGrouped(groups) IN SelectSeq([a \in 1..TRank(t) |-> a], LAMBDA a : a \notin S)
+DefaultNewAxes(t, groups) ==
+    LET S == AllGrouped(groups) IN
+    [i \in 1..Len(groups) |-> 1 + Cardinality({a \in 1..TRank(t) : a \notin S /\ a < groups[i][1]})
+                                + Cardinality({j \in 1..Len(groups) : groups[j][1] < groups[i][1]})]
+CanCombineG(t, groups) ==
+    /\ Len(groups) >= 1
+    /\ \A i \in 1..Len(groups) : Len(groups[i]) >= 1 /\ \A k \in 1..Len(groups[i]) : groups[i][k] \in 1..TRank(t)
+    /\ \A i, j \in 1..Len(groups) : \A k \in 1..Len(groups[i]), m \in 1..Len(groups[j]) :
+           (i # j \/ k # m) => groups[i][k] # groups[j][m]
+OpCombineG(t, groups, qcs, newAxes, sort, bunch) ==
+    LET ng == Len(groups)
+        nc == NonCombinedG(t, groups)
+        r2 == Len(nc) + ng
+        pd == [i \in 1..ng |-> PipeData([k \in 1..Len(groups[i]) |-> t.legs[groups[i][k]]], qcs[i], sort, bunch)]
+        \* which pipe (or 0) sits at result axis a, and which non-combined axis otherwise
+        pipeAt == [a \in 1..r2 |-> IF \E i \in 1..ng : newAxes[i] = a THEN CHOOSE i \in 1..ng : newAxes[i] = a ELSE 0]
+        ncAt == [a \in 1..r2 |-> IF pipeAt[a] # 0 THEN 0 ELSE nc[a - Cardinality({i \in 1..ng : newAxes[i] < a})]]
+        legs == [a \in 1..r2 |-> IF pipeAt[a] # 0 THEN pd[pipeAt[a]].leg ELSE t.legs[ncAt[a]]]
+        labels == [a \in 1..r2 |-> IF pipeAt[a] # 0 THEN CombineLabels(t.labels, groups[pipeAt[a]]) ELSE t.labels[ncAt[a]]]
+        \* for each source axis b: <<result axis, position in group or 0>>
+        where == [b \in 1..TRank(t) |->
+                    IF \E i \in 1..ng : \E k \in 1..Len(groups[i]) : groups[i][k] = b
+                    THEN LET i == CHOOSE i \in 1..ng : \E k \in 1..Len(groups[i]) : groups[i][k] = b
+                         IN <<newAxes[i], CHOOSE k \in 1..Len(groups[i]) : groups[i][k] = b, i>>
+                    ELSE <<CHOOSE a \in 1..r2 : ncAt[a] = b, 0, 0>>]
         src(idx) == [b \in 1..TRank(t) |->
-                       IF inGroup[b] # 0 THEN inv[idx[na] + 1][inGroup[b]]
-                       ELSE IF inNc[b] < na THEN idx[inNc[b]] ELSE idx[inNc[b] + 1]]
+                       IF where[b][2] # 0 THEN pd[where[b][3]].inv[idx[where[b][1]] + 1][where[b][2]]
+                       ELSE idx[where[b][1]]]
     IN Tensor(legs, t.qtotal, labels, Mk(ShapeOf(legs), LAMBDA idx : At(t.val, src(idx))))
+\* the single-pipe form used most often
+NonCombined(t, group) == FreeAxes(TRank(t), group)
+NewAxis(t, group) == DefaultNewAxes(t, <<group>>)[1]
+CanCombine(t, group) == CanCombineG(t, <<group>>)
+OpCombine(t, group, qc, sort, bunch) == OpCombineG(t, <<group>>, <<qc>>, DefaultNewAxes(t, <<group>>), sort, bunch)
 
 \* split_legs(axis): inverse of combine (no transpose back)
 CanSplit(t, x) == x \in 1..TRank(t) /\ IsPipe(t.legs[x])
@@ -345,6 +362,45 @@ OpGauge(t, x, newq, newqc) ==
 \* a[idx] = z for a full index tuple (only allowed where the charge rule permits a non-zero entry)
 CanSetEntry(t, idx) == IndexCharge(t.legs, idx) = t.qtotal
 OpSetEntry(t, idx, z) == [t EXCEPT !.val = [@ EXCEPT !.val = [@ EXCEPT ![Flat(idx, t.val.shape) + 1] = z]]]
+
+\* self[inds] with one index spec per axis:  [k |-> "all"] | [k |-> "int", i |-> i] | [k |-> "sel", sel |-> Seq of indices]
+\* (slices and bool masks are index sequences too).  Documented as take_slice on the integer axes, iproject with the
+\* set of selected indices on the others, and a permute where the selection is not ascending.
+IsAscending(q) == \A i \in 1..(Len(q) - 1) : q[i] < q[i + 1]
+RECURSIVE GetItemFrom(_, _, _)
+GetItemFrom(t, spec, a) ==          \* process axes from the last to the first so axis numbers stay valid
+    IF a = 0 THEN t
+    ELSE LET sp == spec[a] IN
+         IF sp.k = "all" THEN GetItemFrom(t, spec, a - 1)
+         ELSE IF sp.k = "int" THEN GetItemFrom(OpTakeSlice(t, sp.i, a), spec, a - 1)
+         ELSE LET srt == SortedSeqOf({sp.sel[j] : j \in 1..Len(sp.sel)})
+                  proj == OpProject(t, srt, a)
+                  \* position of sp.sel[j] within the projected axis
+                  perm == [j \in 1..Len(sp.sel) |-> (CHOOSE p \in 1..Len(srt) : srt[p] = sp.sel[j]) - 1]
+              IN GetItemFrom(IF IsAscending(sp.sel) THEN proj ELSE OpPermute(proj, perm, a), spec, a - 1)
+OpGetItem(t, spec) == GetItemFrom(t, spec, TRank(t))
+\* self[inds] = z * self[inds]  (read, scale, write back): entries at the selected positions are scaled
+Selected(spec, idx) == \A a \in 1..Len(spec) :
+    CASE spec[a].k = "all" -> TRUE
+      [] spec[a].k = "int" -> idx[a] = spec[a].i
+      [] OTHER -> \E j \in 1..Len(spec[a].sel) : spec[a].sel[j] = idx[a]
+OpScaleItems(t, spec, z) == [t EXCEPT !.val = Mk(t.val.shape, LAMBDA idx : IF Selected(spec, idx) THEN GMul(z, At(t.val, idx)) ELSE At(t.val, idx))]
+
+\* extend(axis, extra): append zero-filled blocks of the leg `extra` to axis x
+OpExtend(t, x, extra) ==
+    LET old == t.legs[x]
+        nl == PlainLeg(old.sizes \o extra.sizes, old.charges \o extra.charges, old.qconj)
+        legs == [a \in 1..TRank(t) |-> IF a = x THEN nl ELSE t.legs[a]]
+    IN Tensor(legs, t.qtotal, t.labels,
+              Mk(ShapeOf(legs), LAMBDA idx : IF idx[x] < IndLen(old) THEN At(t.val, idx) ELSE GZero))
+
+\* add_leg(leg, i, axis, label): inverse of take_slice -- new axis x carrying `leg`, old data at index i
+OpAddLeg(t, leg, i, x, label) ==
+    LET r2 == TRank(t) + 1
+        legs == [a \in 1..r2 |-> IF a < x THEN t.legs[a] ELSE IF a = x THEN leg ELSE t.legs[a - 1]]
+    IN Tensor(legs, QAdd(t.qtotal, QScale(leg.qconj, FlatCharge(leg, i))),
+              [a \in 1..r2 |-> IF a < x THEN t.labels[a] ELSE IF a = x THEN label ELSE t.labels[a - 1]],
+              Mk(ShapeOf(legs), LAMBDA idx : IF idx[x] = i THEN At(t.val, [b \in 1..TRank(t) |-> IF b < x THEN idx[b] ELSE idx[b + 1]]) ELSE GZero))
 
 \* norm^2 (Frobenius)
 OpNorm2(t) == TNorm2(t.val)
